@@ -242,4 +242,15 @@ J('C.unicode.decomp_index', ['C17', 'C01', 'C02'], 'C', 'contracts/extwchar/unic
   functions=['_decomp_s', '_decomp_canonical_s'], timeout=1800, unwind=24, mem_gb=12, tiers=('thorough',),
   note='every cp <= U+10FFFF, every dmax 1..20: table indices in bounds, writes inside dmax')
 
+# ---- C15 (wrapper logic): converters with the libc delegates as assumed contracts
+CONV = [(1, 'mbstowcs_s'), (2, 'wcstombs_s'), (3, 'mbsrtowcs_s'), (4, 'wcsrtombs_s'), (5, 'wcrtomb_s'), (6, 'wctomb_s')]
+for fn, nm in CONV:
+    wide_dest = fn in (1, 3)
+    J(('B' if wide_dest else 'C') + '.conv.%s' % nm, ['C15', 'C01', 'C03', 'C04', 'C05', 'C06', 'C08'], 'B' if wide_dest else 'C', 'harness/convfam.c',
+      sources=['src/wchar/%s.c' % nm] + WCS_COMMON, defines=['FN=%d' % fn] + (['SMALL=5'] if wide_dest else []), functions=['_%s_chk' % nm], timeout=900,
+      replay=False, unwind=(26 if wide_dest else 6), stubs=(['stubs/memset_model.c'] if wide_dest else []), object_bits=10,
+      bound=('dest object of 5 wide characters (declared extent 1..5), source strings <= 5' if wide_dest else None),
+      note='wrapper logic; libc converter replaced by an assumed contract (ghost body in harness/convfam.c): arbitrary admissible count and characters',
+      assumptions=['C15: the libc converters (mbstowcs, wcstombs, mbsrtowcs, wcsrtombs, wcrtomb) behave as the C standard says (count <= n, (size_t)-1 and EILSEQ on error, errno untouched on success); their conversion tables, locale handling and round trips are not verified'])
+
 BY_NAME = {j.name: j for j in JOBS}
